@@ -59,6 +59,8 @@ def gen_matrix(ctx):
     out.append(dict(film=films[0], holes=holesets[1], terminals=termsets[1], mesh=dict(max_edge_length=0.8), xi=1.0))
     out.append(dict(film=films[0], holes=holesets[3], terminals=termsets[2], mesh=dict(max_edge_length=0.7, smooth=5), xi=0.5))
     out.append(dict(film=films[8], holes=[], terminals=termsets[1], mesh=dict(), xi=2.0, units="nm"))
+    # a square with a fine mesh: Triangle puts right-angled triangles at the corners (circumcentre on the boundary edge)
+    out.append(dict(film=dict(kind="box", w=4, h=4, points=52), holes=[], terminals=[], mesh=dict(min_points=300), xi=1.0))
     # ... and seeded random combinations
     n_rand = 30 if ctx.quick else 1000
     if not ctx.quick:
@@ -178,8 +180,13 @@ def report(ctx, traces, accepted, clauses, what, limit=4):
             if "DualLengths" in clause:
                 bad = [(t["E"][r], e["r"], e["w"]) for r, e in enumerate(t["EDGE"]) if e["wc"] and abs(e["r"] - e["w"]) > t["tol"]][:3]
                 detail += f"; (edge, code dual/edge, cotangent weight) {bad}"
-        ctx.violation(f"C07:{what}:{clause}:{t['key'][:200]}", f"C07 ({what}): clause {clause} is false: {detail}"[:1500],
+        cls = ""
+        if t["kind"] == "gen" and "CellAreas" in clause:
+            bad = [s for s in t["SITE"] if s["wc"] and abs(s["a"] - s["c"]) > t["tol"]]
+            cls = "zero-cell:" if bad and all(s["a"] == 0 for s in bad) else ""
+        ctx.violation(f"C07:{what}:{clause}:{cls}{t['key'][:200]}", f"C07 ({what}): clause {clause} is false: {detail}"[:1500],
                       {"trace": t, "violated": violated, "tlc_tail": tail})
+    ctx.cov[f"rejected_{what}_inputs"] = [traces[n]["key"][:300] for n in rejected][:40]
     if len(rejected) > limit:
         ctx.cov["further_rejected_traces_not_diagnosed"] = ctx.cov.get("further_rejected_traces_not_diagnosed", 0) + len(rejected) - limit
 
